@@ -5,3 +5,21 @@ open TFVerif.C12
 #print axioms gen_eq_model_naOk
 #print axioms gen_eq_model_wiseOk
 #print axioms gen_eq_model_cyclicConst
+#print axioms unsupported_pairings_rejected
+#print axioms init_modules_wellformed
+#print axioms forward_shape
+#print axioms shape_and_names
+#print axioms accepts_every_batch
+#print axioms embedding_index_in_range
+#print axioms embedding_index_injective
+#print axioms bag_index_in_range
+#print axioms calendar_in_encoder_domain
+#print axioms fitted_year_ge_min
+#print axioms embdim_matches_offsets
+#print axioms bucket_index_in_range
+#print axioms no_nan_out
+#print axioms denominators_nonzero
+#print axioms nonmissing_finite_before_nan_to_num
+#print axioms lazy_equals_eager
+#print axioms init_fires_exactly_once
+#print axioms incomplete_refuses
